@@ -76,7 +76,14 @@ func TestVerif_C12_BeaconResultSigning(t *testing.T) {
 				}
 				return p, p.Type(), ok, tag
 			},
-			receive: rss.Receive,
+			receive:  rss.Receive,
+			register: RegisterUnmarshallers,
+			ident: func(m interface{}) string {
+				if v, ok := m.(*DKGResultHashSignatureMessage); ok {
+					return fmt.Sprintf("resultSignature/%d/%q/%x", v.senderIndex, v.sessionID, v.publicKey[:8])
+				}
+				return fmt.Sprintf("%T", m)
+			},
 			stored: func() map[int][]interface{} {
 				out := map[int][]interface{}{}
 				for _, m := range rss.signatureMessages {
